@@ -279,7 +279,9 @@ def elitism_events(R, n_cases, seed0):
         vals = [R.choice([0, 1, 2, 3]) for _ in range(12)]   # many ties, and the value 0
         import numpy as _np
         conv = [float, _np.uint8, _np.int64, _np.float32, int, _np.uint64][(c // 2) % 6]   # fitness functions often return numpy scalars
-        problem = SingleObjectiveProblem(lambda p, vals=vals, conv=conv: conv(vals[prog_value(p) % 12]), minimize=minimise)
+        # (the direction often comes out of a configuration array: a numpy truth value, not the literal True / False)
+        flag = [minimise, _np.bool_(minimise), minimise, _np.array([minimise])[0]][(c // 2) % 4]
+        problem = SingleObjectiveProblem(lambda p, vals=vals, conv=conv: conv(vals[prog_value(p) % 12]), minimize=flag)
         ev_ = SequentialEvaluator()
         n = R.randint(1, 6)
         pop = [Individual(rep.create_genotype(rs), rep) for _ in range(n)]
@@ -565,17 +567,29 @@ def selection_traces(R, tier, part="all"):
                         # (population 7 holds TWINS: distinct individuals with equal genotypes, hence equal fitness)
                         twins = vecs == [[1, 2], [1, 2], [2, 1]]
                         inds = [Individual(SLeaf(0 if (twins and i == 1) else i), rep) for i in range(len(vecs))]
-                        problem = MultiObjectiveProblem(list(mini), lambda p: [float(x) for x in vecs[p.v]])
+                        # the vectors the specification reasons with are the ones the fitness function PRODUCED (this table),
+                        # not what the library stored; on odd configurations the callback answers through one reused list
+                        buf = []
+
+                        def ff(p, vecs=vecs, buf=buf, reuse_buf=bool((mi + int(eps) + target) % 2)):
+                            if reuse_buf:
+                                buf[:] = [float(x) for x in vecs[p.v]]
+                                return buf
+                            return [float(x) for x in vecs[p.v]]
+
+                        def rec_of(ids, x, vecs=vecs):
+                            return {"id": ids.of(x), "f": icomps([float(v) for v in vecs[x.genotype.v]])}
+                        problem = MultiObjectiveProblem(list(mini), ff)
                         ev_ = SequentialEvaluator()
                         events, ids = [], Ids()
                         ev_.evaluate(problem, inds)
-                        popr = [ind_rec(ids, x, problem) for x in inds]
+                        popr = [rec_of(ids, x) for x in inds]
                         log = ChoiceLog(src, events, ids, problem)
                         it = LexicaseSelection(epsilon=eps).apply(problem, ev_, rep, log, list(inds), target, 1)
                         exc = ""
                         try:
                             for w in it:
-                                events.append({"e": "win", "ind": ind_rec(ids, w, problem)})
+                                events.append({"e": "win", "ind": rec_of(ids, w)})
                         except Exception as e:
                             exc = exc_name(e)
                         events.insert(0, {"e": "selstart", "kind": "lexicase", "pop": popr, "mini": list(mini),
